@@ -222,6 +222,38 @@ Fixpoint count_until_exhausted (os : list obs) : nat :=
   | o :: t => if o_exh o then 0 else S (count_until_exhausted t)
   end.
 
+(* Signal::until_exhausted() as an iterator, taken at most [cap] times:
+   if self.signal.is_exhausted() { return None; } Some(self.signal.next())   -> number of frames *)
+Fixpoint until_exhausted (fuel cap : nat) (c : conv) : outcome (nat * conv) :=
+  match cap with
+  | O => Done (O, c)
+  | S k =>
+    if is_exhausted c then Done (O, c)
+    else match next fuel c with
+         | Diverges => Diverges
+         | Done (_, c1) =>
+           match until_exhausted fuel k c1 with
+           | Diverges => Diverges
+           | Done (n, c2) => Done (S n, c2)
+           end
+         end
+  end.
+
+Fixpoint mul_until_exhausted (fuel cap : nat) (m : mulhz) : outcome (nat * mulhz) :=
+  match cap with
+  | O => Done (O, m)
+  | S k =>
+    if mul_exhausted m then Done (O, m)
+    else match mul_next fuel m with
+         | Diverges => Diverges
+         | Done (_, m1) =>
+           match mul_until_exhausted fuel k m1 with
+           | Diverges => Diverges
+           | Done (n, m2) => Done (S n, m2)
+           end
+         end
+  end.
+
 End Model.
 
 Arguments frame {N} Fm.
